@@ -59,6 +59,14 @@ def unit(u) -> Stats:
             lr.dirty(2, resets=True)
         elif "dirty1" in modes:
             lr.dirty(1, resets=True)
+        if "prelife" in modes:
+            # the object served another game before (bounds computed at minimal knowledge), was bulk-reset to this one, and
+            # the first reveal arrives before any compute
+            top = (1 << n) - 1
+            for v2 in (tuple(1 if s == top else 0 for s in range(1 << n)), tuple(1000 * A.popcount(s) ** 2 for s in range(1 << n))):
+                lr.v2, lr.alt_ops = v2, False
+                lr.dirty(1, resets=False, prelife=True)
+            lr.v2, lr.alt_ops = None, True
         st.nontrivial += len(chk.nontrivial)
     if u[0] == 3 and tag.startswith("shift"):
         st.sample({"n": n, "tag": tag, "values": list(v), "modes": list(modes)})
@@ -78,7 +86,7 @@ def units(run: Run):
     g3 = A.a3_sa() if quick else A.a3_sa((-2, -1, 0, 1, 2))
     for i, g in enumerate(g3):
         for tag, gv in A.with_shifts([g], 3):
-            us.append((3, f"{tag}#{i}", gv, ("fresh", "euler", "dirty2" if tag == "shift" else "dirty1"), 0.0))
+            us.append((3, f"{tag}#{i}", gv, ("fresh", "euler") + (("dirty2", "prelife") if tag == "shift" else ("dirty1",)), 0.0))
         for tag, gv in A.with_scales([g], 3):      # huge additive part with a small surplus on top; tiny units
             us.append((3, f"{tag}#{i}", gv, ("fresh", "euler"), 0.0))
     if quick:
